@@ -323,7 +323,7 @@ static ssize_t _GD_WriteFieldCode(DIRFILE *D, FILE *stream, int me,
   char *ptr;
   const unsigned strip_flags = GD_CO_NSROOT | GD_CO_ASSERT
     | ((flags & GD_WFC_EARLY) ? GD_CO_EARLY : 0)
-    | ((flags & GD_WFC_NAME) ? 0 : GD_CO_REPR)
+    | ((flags & GD_WFC_NAME) ? GD_CO_NAME : GD_CO_REPR)
     | ((permissive || D->standards >= 10) ? GD_CO_REPRZ : 0);
 
   dtrace("%p, %p, %i, \"%s\", %i, %i, %i, 0x%X", D, stream, me, code, index,
